@@ -545,9 +545,13 @@ def r3_truth_table(ctx: Context) -> None:
             got = f"raise {out.name}"
         else:
             val = out.value
-            same_seq = bool(isinstance(val, Constructed) and val.args and isinstance(val.args[0], (list, tuple)) and isinstance(given, list)
-                            and len(val.args[0]) == len(given) and all(a_ is b_ for a_, b_ in zip(val.args[0], given)))     # a tuple()/list() copy of the line-up
-            if isinstance(val, Constructed) and val.cls == "RoundRobinScheduler" and val.args and (val.args[0] is given or same_seq or (isinstance(val.args[0], Opaque) and val.args[0].tag == "samplers")):
+            first_ = None
+            if isinstance(val, Constructed):
+                first_ = val.args[0] if val.args else dict(val.kwargs).get("samplers")       # positional or `samplers=`
+            same_seq = bool(isinstance(first_, (list, tuple)) and isinstance(given, list)
+                            and len(first_) == len(given) and all(a_ is b_ for a_, b_ in zip(first_, given)))     # a tuple()/list() copy of the line-up
+            if isinstance(val, Constructed) and val.cls == "RoundRobinScheduler" and first_ is not None and len(val.args) + len(val.kwargs) == 1 \
+                    and (first_ is given or same_seq or (isinstance(first_, Opaque) and first_.tag == "samplers")):
                 got = "RoundRobinScheduler(samplers)"
             elif isinstance(val, Opaque) and val.tag == "scheduler":
                 got = "scheduler"
